@@ -37,7 +37,7 @@ def canon(v):
     if isinstance(v, type):
         return 'C<' + v.__name__ + '>'
     if hasattr(v, '__dict__') and not callable(v):
-        return 'O<' + type(v).__name__ + canon(v.__dict__) + '>'
+        return 'O<' + type(v).__module__ + '.' + type(v).__name__ + canon(v.__dict__) + '>'       # classes of the same name in two modules differ
     return type(v).__name__ + ':' + repr(v)
 
 
@@ -83,8 +83,11 @@ class World(object):
         if rng.random() < self.raise_rate:
             # mostly service-defined exceptions, sometimes builtin ones a framework might catch too broadly itself
             r = rng.random()
-            if r < 0.5:
+            if r < 0.45:
                 return ('raise', UserError)
+            if r < 0.55:
+                from vlib.values import EmptyBatchError
+                return ('raise', EmptyBatchError)
             if r < 0.65:
                 return ('raise', UserError2)
             return ('raise', rng.choice(BUILTIN_EXCEPTIONS))
